@@ -206,18 +206,19 @@ func InclusiveRangeContains(
 	end := getFieldAsIntegerValue(context, rangeValue, sema.InclusiveRangeTypeEndFieldName)
 	step := getFieldAsIntegerValue(context, rangeValue, sema.InclusiveRangeTypeStepFieldName)
 
-	result := start.Equal(context, needleValue) ||
-		end.Equal(context, needleValue)
+	result := start.Equal(context, needleValue)
 
 	if result {
 		return TrueValue
 	}
 
-	// Exclusive check since we already checked for boundaries above.
-	if !isNeedleBetweenStartEndExclusive(context, needleValue, start, end) {
+	// The end value is only contained if it can be reached from start in whole steps,
+	// so it is checked in the same way as the values in between start and end.
+	if !end.Equal(context, needleValue) &&
+		!isNeedleBetweenStartEndExclusive(context, needleValue, start, end) {
 		result = false
 	} else {
-		// needle is in between start and end.
+		// needle is in between start and end, or is the end.
 		// start + k * step should be equal to needle i.e. (needle - start) mod step == 0.
 		// The difference might not be representable in the element type
 		// (e.g. 126 - (-128) for Int8), so compute it using arbitrary-precision integers.
